@@ -33,6 +33,14 @@ RULE = ("integer tensors (Tucker-structured low rank with integer core/factors, 
         "fixsigns / redistribute / full / norm / innerprod / ttv / to_tenmat / collapse), sparse sequences checked at the Gram matrix; "
         "inside every exact sparse / sparse-core run the output of sptensor.spmatrix() (stored order) resp. of core.ttm(V) is recorded and "
         "compared with the code-path models; "
+        "sparse requests (singleton mode n and singleton product of the other modes included since /repo f3d6beb) are compared facet by "
+        "facet: sp_gram (Gram matrix, code-path model, recorded tnt, result shape, solver choice), sp_real (dtype), sp_eig, sp_post, sp_cols "
+        "(orthonormal + sign rule), sp_set (eigenpairs of the r largest eigenvalues in any order), sp_code (the code's own post-processing of "
+        "the recorded solver output), sp_agree; only-singleton shapes: sp_refused (ValueError and model refusal); 1-way sparse tensors: "
+        "sp_oneway (finding C14-F3); "
+        "large modes (ops big / sp_big): rank-5 integer tensors with one mode of size 24..40 at any position, r = 1, 2 on the iterative path, "
+        "leading eigenvectors exact and structured (sum 0 / orthogonal to the alternating vector / first entry 0 / generic), certified by the "
+        "trace bound; the solver CALL (positional arguments, keyword names) of every run is recorded and must be solver(y, r) / solver(y); "
         "agreement across representations only where the eigen-gap at r is > 1e-3 relative; non-trivial = mode size >= 2; "
         "distinct = distinct (op,args)")
 CORRESPONDENCE_ONLY = ["scipy.sparse products (COO x COO in sptensor.nvecs, COO x ndarray in the sparse-core branch of ttensor.nvecs) compute the matrix "
@@ -40,8 +48,9 @@ CORRESPONDENCE_ONLY = ["scipy.sparse products (COO x COO in sptensor.nvecs, COO 
                        "is that matrix product, the recorded solver input is compared with the model on every sample",
                        "the single-mode kernel of sptensor.ttm used as the first step of the chain H = core.ttm(V) is C02's coordinate-level "
                        "model impl_ttm_sp (theorem C02_ttm_sparse; tied to the code by C02's correspondence and here by the recorded H of "
-                       "every exact sparse-core sample); the sptensor constructor calls inside reshape/squeeze are taken to keep the rows "
+                       "every exact sparse-core sample); the sptensor constructor calls inside the two reshape calls are taken to keep the rows "
                        "as given (recorded spmatrix() output = model tnt on every exact sparse sample)",
+                       "sptensor.nvecs on a 1-way tensor (finding C14-F3: raises; outside the domain 2 <= ndims of C14_gram_sparse_code)",
                        "eigen solvers eigh/eigsh/eig/eigs: certificate-checked oracles"]
 ASSUMPTIONS = ["floats converted exactly (solver input/output) or on the 2^-40 grid (returned vectors) to rationals; recorded solver input of "
                "scaled data divided exactly by 4^exponent in the harness",
@@ -52,9 +61,13 @@ EXPLANATION = ("C14_gram_dense / _sparse / _kruskal / _tucker: the Gram matrix t
                "shape, mode); C14_gram_dense_code / C14_gram_tucker_code / C14_gram_tucker_sparse_core: the same matrices built from the "
                "GENERATED gather_wrap_dims + C01's to_tenmat / to_sptenmat(+constructor) / double + tensor.ttm transliterations; "
                "C14_coo_product: the COO product model is the matrix product of the denotations; C14_sparse_rekey_bridge / "
-               "C14_gram_sparse_code(_spec): sptensor.nvecs' reshape (over the GENERATED tt_sub2ind / tt_ind2sub) / squeeze / spmatrix / transpose "
+               "C14_gram_sparse_code(_spec): sptensor.nvecs' reshape / second reshape (over the GENERATED tt_sub2ind / tt_ind2sub) / spmatrix / transpose "
                "yields exactly the triples of C14_gram_sparse, so the code path's product is gram_sp_impl = the matrix product of the denoted "
-               "arrays = gram_spec; C14_sparse_singleton_refused: the same path refuses singleton modes (finding C14-F2); "
+               "arrays = gram_spec — for every tensor with >= 2 modes that is not only-singleton (after /repo f3d6beb); "
+               "C14_sparse_singleton_answered / C14_sparse_all_singleton_refused: singleton mode n or singleton product of the others is answered, "
+               "only-singleton shapes are refused; C14_sparse_post_dense_sorted / _iter_sorted / _iter_one, C14_argsort_sorted_id: the code's own "
+               "post-processing on the sparse path (row permutation / no sort: finding A-38) is the postprocess of the other representations "
+               "when the solver output has |w| non-increasing; "
                "C14_sparse_ttm_chain / C14_gram_tucker_sparse_core_code(_spec): H = core.ttm(V) as the code computes it (sparse first step, "
                "tensor.ttm afterwards) is dense and holds core x_m V_m, so the sparse-core theorem needs no hypothesis about H; the COO matrix "
                "spmatrix() returns inside sptensor.nvecs and the tensor core.ttm(V) returns inside ttensor.nvecs are RECORDED and compared "
@@ -136,7 +149,7 @@ SEQ_REPRS = ("ktensor", "ttensor", "ttensor_sp", "dense")
 
 def gen_cases(rng, tier):
     big = tier == "thorough"
-    cases = []
+    cases = _gen_large(rng, big)          # first: their failures are the ones with the plainest failing input
     for shp in (SHAPES_T if big else SHAPES_Q):
         for kind in ((_bundle_tucker, _bundle_dense) if (big or len(shp) < 3) else (rng.choice([_bundle_tucker, _bundle_dense]),)):
             if len(shp) == 1 and kind is _bundle_tucker:
@@ -148,16 +161,21 @@ def gen_cases(rng, tier):
                 for r in range(1, shp[n] + 1):
                     flip = rng.random() < 0.8
                     for rp in REPRS:
-                        if rp == "sparse" and all(s == 1 for k, s in enumerate(shp) if k != n):
-                            continue          # sptensor.nvecs refuses tensors whose other modes are all singleton
                         a = dict(b, n=n, r=r, flip=flip, repr=rp)
                         if rp == "sparse":
-                            for op in ("sp_gram", "sp_real", "sp_eig", "sp_post"):
+                            if _sp_class(shp, n) == "oneway":
+                                cases.append(Case("sp_oneway", a, shp[n] >= 2))     # finding C14-F3
+                                continue
+                            if _sp_class(shp, n) == "refused":
+                                cases.append(Case("sp_refused", a, False))
+                                continue
+                            # singleton mode n / all other modes singleton: answered since /repo f3d6beb (C14-F2 repaired)
+                            for op in SP_OPS:
                                 cases.append(Case(op, a, shp[n] >= 2))
                         else:
                             cases.append(Case("nvecs", a, shp[n] >= 2))
                     cases.append(Case("agree", dict(b, n=n, r=r, flip=flip), shp[n] >= 2))
-                    if not all(s == 1 for k, s in enumerate(shp) if k != n):
+                    if _sp_class(shp, n) == "answered":
                         cases.append(Case("sp_agree", dict(b, n=n, r=r, flip=flip), shp[n] >= 2))
             # sequences: nvecs for every mode on ONE object (as cp_als / tucker_als(init="nvecs") do), each result checked against
             # the Gram matrix of the ORIGINAL denotation; Kruskal operands get non-unit weights
@@ -178,6 +196,131 @@ def gen_cases(rng, tier):
                         cases.append(Case("seq", dict(bs, repr=rp, modes=modes, rs=rs, flip=rng.random() < 0.8),
                                           any(shp[n] >= 2 for n in modes)))
     cases += _gen_variants(rng, big)
+    cases += _gen_all_singleton(rng, big)
+    return cases
+
+
+# ---------------------------------------------------------------- large modes: the iterative solvers really iterate
+PATTERNS = ("sum0", "alt", "e1", "generic")
+
+
+def _bundle_structured(rng, big_size, pos, pat, R=5):
+    """a rank-R tensor with ONE large mode (size 24..40, at position pos) whose two leading mode-n eigenvectors are known exactly and are
+    structured the way iterative eigen solvers are sensitive to: entries summing to exactly 0 (orthogonal to an all-ones start vector),
+    orthogonal to the alternating-sign vector, first entry exactly 0 (orthogonal to e_1), or generic.  Component 0 and 1 sit alone in
+    slab 0 / slab 1 of the second role mode and on rows 0..4 of the large mode, the other R-2 components (small random integers) on
+    the remaining rows and slabs: the Gram matrix is block diagonal with the exact blocks l1 u1 u1^T, l2 u2 u2^T and a rank <= R-2
+    remainder whose trace is <= l2 / 2, l2 + that <= l1 / 2 — a rich spectrum below two well separated, exactly known leading pairs, and
+    the tail bound of the trace certificate (nvecs_trace_ok) holds for r = 1 and r = 2"""
+    J, L = 4, 3
+    u1 = {"sum0": {0: 1, 1: -1}, "alt": {0: 1, 1: 1}, "e1": {1: 1, 2: -2}, "generic": {0: 2, 1: 1, 2: -1}}[pat]
+    u2 = {3: 1, 4: -1} if pat != "alt" else {3: 1, 4: 1}
+    while True:
+        A = [[0] * R for _ in range(big_size)]
+        B = [[0] * R for _ in range(J)]
+        C = [[rng.randint(-2, 2) for _ in range(R)] for _ in range(L)]
+        for i, x in u1.items():
+            A[i][0] = x
+        for i, x in u2.items():
+            A[i][1] = x
+        B[0][0] = B[1][1] = 1
+        for k in range(2, R):
+            for i in range(5, big_size):
+                A[i][k] = rng.randint(-2, 2)
+            for j in range(2, J):
+                B[j][k] = rng.randint(-2, 2)
+        c0 = sum(C[l][0] ** 2 for l in range(L))
+        c1 = sum(C[l][1] ** 2 for l in range(L))
+        if not c0 or not c1:
+            continue
+        rest = 0                       # squared Frobenius norm of the remainder = trace of its Gram matrix
+        for i in range(5, big_size):
+            for j in range(2, J):
+                for l in range(L):
+                    rest += sum(A[i][k] * B[j][k] * C[l][k] for k in range(2, R)) ** 2
+        if rest:
+            break
+    n1, n2 = sum(x * x for x in u1.values()) * c0, sum(x * x for x in u2.values()) * c1
+    w2 = math.isqrt(2 * rest // n2) + 1
+    w1 = math.isqrt(2 * (w2 * w2 * n2 + rest) // n1) + 1
+    w = [w1 * rng.choice([1, -1]), w2 * rng.choice([1, -1])] + [1] * (R - 2)
+    roles = [A, B, C]
+    order = {0: [0, 1, 2], 1: [1, 0, 2], 2: [1, 2, 0]}[pos]      # role of each mode (0 = the large one at position pos)
+    fac = [roles[q] for q in order]
+    shape = [len(f) for f in fac]
+    subs = tgen.all_subs(shape)
+    data = [sum(w[k] * fac[0][sb[0]][k] * fac[1][sb[1]][k] * fac[2][sb[2]][k] for k in range(R)) for sb in subs]
+    core = [0] * (R ** 3)
+    for k in range(R):
+        core[k + R * k + R * R * k] = w[k]
+    return {"shape": shape, "data": data, "kw": w, "kf": fac, "tcs": [R, R, R], "tcore": core, "tf": fac,
+            "order": rng.choice(["sorted", "reversed", "random"]), "sseed": rng.randrange(10 ** 6)}
+
+
+def _gen_large(rng, big):
+    cases = []
+    sizes = (24, 28) + ((26, 32, 40) if big else ())
+    for k, sz in enumerate(sizes):
+        for q, pat in enumerate(PATTERNS):
+            pos = (k + q) % 3
+            b = _bundle_structured(rng, sz, pos, pat)
+            for r in (1, 2):
+                flip = rng.random() < 0.8
+                for rp in REPRS:
+                    cases.append(Case("sp_big" if rp == "sparse" else "big", dict(b, n=pos, r=r, flip=flip, repr=rp), True))
+    return cases
+
+
+# the facets of one sparse request; each is compared separately so that finding A-38 is attributed facet by facet (TRIGGERS below)
+SP_OPS = ("sp_gram", "sp_real", "sp_eig", "sp_post", "sp_cols", "sp_set", "sp_code")
+
+
+def _sp_class(shp, n):
+    """what sptensor.nvecs does with (shape, n): 'oneway' (1-way tensor: finding C14-F3), 'refused' (mode n AND the product of the other
+    modes are 1: ValueError pinned by tests/test_sptensor.py; theorem C14_sparse_all_singleton_refused), else 'answered'"""
+    if len(shp) < 2:
+        return "oneway"
+    if shp[n] == 1 and all(s == 1 for k, s in enumerate(shp) if k != n):
+        return "refused"
+    return "answered"
+
+
+def _gen_all_singleton(rng, big):
+    """tensors with only singleton modes held sparse (one stored entry / nothing stored): the one request the code path refuses"""
+    cases = []
+    for shp in [(1, 1), (1, 1, 1)] + ([(1, 1, 1, 1)] if big else []):
+        for v in (0, rng.choice([-3, 2, 5])):
+            b = {"shape": list(shp), "data": [v], "order": "sorted", "sseed": 0}
+            for n in range(len(shp)):
+                cases.append(Case("sp_refused", dict(b, n=n, r=1, flip=True, repr="sparse"), False))
+    # the witness of finding C14-F2 (repaired in /repo f3d6beb) as an ordinary regression case: 1x4x3, entries [0,1,2]=2, [0,3,0]=1, n=0
+    data = [0] * 12
+    data[9], data[3] = 2, 1
+    b = {"shape": [1, 4, 3], "data": data, "order": "reversed", "sseed": 0}
+    for op in SP_OPS:
+        cases.append(Case(op, dict(b, n=0, r=1, flip=True, repr="sparse"), False))
+    cases.append(Case("sp_agree", dict(b, n=0, r=1, flip=True), False))
+    # the zero tensor (sparse: nothing stored — the `subs.size == 0` branch of both reshape calls; every eigenvalue 0: any orthonormal
+    # set is right, the cross-representation agreement does not apply)
+    for shp in [(3, 2), (2, 1, 3)] + ([(4, 2, 2)] if big else []):
+        d = len(shp)
+        z = [0] * math.prod(shp)
+        eye = [[[1 if i == j else 0 for j in range(shp[m])] for i in range(shp[m])] for m in range(d)]
+        b = {"shape": list(shp), "data": z, "kw": [], "kf": [[[] for _ in range(shp[m])] for m in range(d)], "tcs": list(shp), "tcore": z,
+             "tf": eye, "order": "sorted", "sseed": 0}
+        for n in range(d):
+            for r in sorted({1, shp[n]}):
+                flip = rng.random() < 0.8
+                for rp in ("dense", "ttensor", "ttensor_sp"):
+                    cases.append(Case("nvecs", dict(b, n=n, r=r, flip=flip, repr=rp), shp[n] >= 2))
+                for op in SP_OPS:
+                    cases.append(Case(op, dict(b, n=n, r=r, flip=flip, repr="sparse"), shp[n] >= 2))
+    # 1-way tensors held sparse (finding C14-F3; the other representations of 1-way tensors are in the thorough main stream)
+    for shp in [(4,), (2,)] + ([(6,)] if big else []):
+        b = _bundle_dense(rng, shp)
+        b["order"], b["sseed"] = rng.choice(["sorted", "reversed", "random"]), rng.randrange(10 ** 6)
+        for r in sorted({1, shp[0] - 1, shp[0]} - {0}):
+            cases.append(Case("sp_oneway", dict(b, n=0, r=r, flip=True, repr="sparse"), shp[0] >= 2))
     return cases
 
 
@@ -196,9 +339,10 @@ def _pick_nr(rng, shp, cap=None):
 def _emit(cases, b, rp, n, r, flip, shp):
     a = dict(b, n=n, r=r, flip=flip, repr=rp)
     if rp == "sparse":
-        if shp[n] == 1 or all(s == 1 for k, s in enumerate(shp) if k != n):
-            return          # refused by sptensor.nvecs / known finding C14-F2 (covered by the main stream)
-        cases.append(Case("sp_gram", a, shp[n] >= 2))
+        if _sp_class(shp, n) != "answered":
+            return          # 1-way / all-singleton: covered by the main stream (sp_oneway, sp_refused)
+        for op in ("sp_gram", "sp_cols", "sp_set", "sp_code"):
+            cases.append(Case(op, a, shp[n] >= 2))
     else:
         cases.append(Case("nvecs", a, shp[n] >= 2))
 
@@ -258,8 +402,7 @@ def _gen_variants(rng, big):
                     if rp != "ktensor" or any(abs(w) != 1 for w in b["kw"]):
                         break
                     b = fresh(_bundle_tucker)
-                modes = [k for k in range(d)
-                         if rp != "sparse" or (shp[k] > 1 and not all(s == 1 for j, s in enumerate(shp) if j != k))]
+                modes = [k for k in range(d) if rp != "sparse" or _sp_class(shp, k) == "answered"]
                 if not modes:
                     continue
                 modes = modes + [rng.choice(modes)]
@@ -313,7 +456,8 @@ def _recorded(np, log, aux=None):
         def g(y, *a, **k):
             out = f(y, *a, **k)
             yd = y.toarray() if scipy.sparse.issparse(y) else np.asarray(y)
-            log.append((nm, np.array(yd, dtype=float), np.array(out[0]), np.array(out[1])))
+            call = {"pos": [int(x) if isinstance(x, (int, np.integer)) else type(x).__name__ for x in a], "kw": sorted(k)}
+            log.append((nm, np.array(yd, dtype=float), np.array(out[0]), np.array(out[1]), call))
             return out
         return g
     try:
@@ -343,8 +487,9 @@ def _run_one(ttb, np, a, rp, X=None):
          "Vx": [[tgen.exact(x) for x in np.real(v)[:, j]] for j in range(v.shape[1])] if v.ndim == 2 else [],
          "imag": float(np.max(np.abs(np.imag(v)))) if v.size else 0.0, "ncalls": len(log)}
     if log:
-        nm, y, w, vv = log[-1]
+        nm, y, w, vv, call = log[-1]
         o["solver"] = nm
+        o["call"] = call        # positional arguments after the matrix, names of keyword arguments (v0=, sigma=, which=, ...)
         o["Y"] = [[tgen.exact(x) for x in row] for row in y]
         o["w"] = [tgen.exact(x) for x in np.real(w)]
         o["cols"] = [[tgen.exact(x) for x in np.real(vv)[:, j]] for j in range(vv.shape[1])]
@@ -387,7 +532,8 @@ def run_impl(c):
                 o[rp] = _run_one(ttb, np, a, rp)
             return o
         o = _run_one(ttb, np, a, a["repr"])
-        o["cert"] = _cert(np, a)
+        if c.op not in ("big", "sp_big"):        # large modes are certified by the trace bound, not by a full decomposition
+            o["cert"] = _cert(np, a)
         return o
     except Exception as ex:
         return {"exc": type(ex).__name__, "msg": str(ex)[:200]}
@@ -436,10 +582,10 @@ def _e_gram(a, o, rp, inexact=False):
         subs, vals = tgen.dense_to_sparse(a["shape"], a["data"], random.Random(a["sseed"]), a["order"])
         gs = tgen.gsparse(a['shape'], subs, vals)
         e += f" && mat_eqb (gram_sp_code {gs} {a['n']}) {gzmat(o['Y'])}"
-        # the code path itself (C14_gram_sparse_code): reshape over the generated tt_sub2ind/tt_ind2sub, squeeze, spmatrix, transpose —
-        # on the domain where that path accepts the request (mode n and the product of the other modes > 1; elsewhere the path
-        # refuses, C14_sparse_singleton_refused / finding C14-F2, and only the representation-independent checks above apply)
-        if a["shape"][a["n"]] > 1 and math.prod(d for k, d in enumerate(a["shape"]) if k != a["n"]) > 1:
+        # the code path itself (C14_gram_sparse_code): reshape and second reshape over the generated tt_sub2ind/tt_ind2sub, spmatrix,
+        # transpose — on the whole domain of the theorem (at least two modes, not all singleton: singleton mode n and singleton product
+        # of the other modes included, C14_sparse_singleton_answered)
+        if _sp_class(a["shape"], a["n"]) == "answered":
             e += f" && omat_eqb (gram_sp_path_code {gs} {a['n']}) {gzmat(o['Y'])}"
             e += " && " + _e_tnt(a, o, gs)
     if rp in ("ttensor", "ttensor_sp"):      # the through-the-core model of C14_gram_tucker
@@ -497,20 +643,83 @@ def _e_eig(a, o, rp):
 def _e_post(a, o):
     if "w" not in o:
         return "false"
-    if len({abs(x) for x in o["w"]}) < len(o["w"]):
-        return "true"      # exactly equal |w|: numpy's default argsort is not stable, the order among ties is unspecified
+    if any(isinstance(x, str) for x in o["w"]) or any(isinstance(x, str) for cl in o["cols"] + o["Vx"] for x in cl):
+        return "false"     # non-finite solver output / result
     cols = "[" + "; ".join(gqlist(cl) for cl in o["cols"]) + "]"
     got = "[" + "; ".join(gqlist(cl) for cl in o["Vx"]) + "]" if o["Vx"] else "(@nil (list Qc))"
+    if len({abs(x) for x in o["w"]}) < len(o["w"]):
+        # exactly equal |w|: numpy's default argsort is not stable, the order among ties is unspecified — every returned column must be
+        # the (flipped) recorded column of SOME index whose |w| is the k-th largest (decided in Coq, Model/C14Check.v qpost_tie_ok)
+        return f"qpost_tie_ok {gqlist(o['w'])} {cols} {a['r']} {gbool(a['flip'])} {got}"
     return f"qcols_eqb (qpost {gqlist(o['w'])} {cols} {a['r']} {gbool(a['flip'])}) {got}"
+
+
+def _gsp(a):
+    import random
+    subs, vals = tgen.dense_to_sparse(a["shape"], a["data"], random.Random(a["sseed"]), a["order"])
+    return tgen.gsparse(a["shape"], subs, vals)
+
+
+def _e_facts(a, o, sym=False):
+    """result shape, exactly one solver call, the solver of the path the request selects (r < I_n - 1: iterative; sptensor.nvecs calls
+    eigs / eig, the other three representations eigsh / eigh)"""
+    it = a["r"] < a["shape"][a["n"]] - 1
+    want = ("eigs" if it else "eig") + ("h" if sym else "")
+    # the call itself: solver(y, r) on the iterative path, solver(y) on the dense path, no keyword argument (start vector, shift,
+    # which-end, tolerance are the library defaults in all four implementations)
+    call_ok = o.get("call") == {"pos": [a["r"]] if it else [], "kw": []}
+    if not call_ok:
+        return "false"
+    return f"shape_is {gnlist(o['vshape'])} {a['shape'][a['n']]} {a['r']} && {gbool(o.get('solver') == want and o['ncalls'] == 1)}"
+
+
+def _e_imag0(o):
+    return f"qleb {gq(rq(o['imag']))} q0"
+
+
+def _e_spcode(a, o):
+    """the returned matrix = sptensor.nvecs' OWN post-processing (Model/C14SpPost.v: row permutation on the dense-solver path, eigs'
+    order kept on the iterative path, flip loop) of the recorded solver output, exactly — the code-path tie of the sparse representation;
+    theorems C14_sparse_post_dense_sorted / _iter_sorted say on which solver outputs this is the post-processing the property asks for"""
+    if "w" not in o:
+        return "false"
+    if any(isinstance(x, str) for x in o["w"]) or any(isinstance(x, str) for cl in o["cols"] + o["Vx"] for x in cl):
+        return "false"
+    I, r = a["shape"][a["n"]], a["r"]
+    cols = "[" + "; ".join(gqlist(cl) for cl in o["cols"]) + "]" if o["cols"] else "(@nil (list Qc))"
+    got = "[" + "; ".join(gqlist(cl) for cl in o["Vx"]) + "]" if o["Vx"] else "(@nil (list Qc))"
+    if r < I - 1:
+        return f"qcols_eqb (qsp_post_iter {cols} {gbool(a['flip'])}) {got}"
+    if len({abs(x) for x in o["w"]}) < len(o["w"]):      # order among exactly equal |w| unspecified (numpy's default argsort)
+        return f"shape_is {gnlist(o['vshape'])} {I} {r}"
+    return f"qcols_eqb (qsp_post_dense {gqlist(o['w'])} {cols} {r} {gbool(a['flip'])}) {got}"
 
 
 def coq_check(c, o):
     a = c.args
+    if c.op == "sp_refused":       # only singleton modes: the code path refuses (ValueError pinned by tests/), and so does its model
+        return f"{gbool(o.get('exc') == 'ValueError' and 'only singleton' in (o.get('msg') or ''))} && sp_path_refused {_gsp(a)} {a['n']}"
     if "exc" in o:
         return "false"
+    if c.op == "sp_oneway":        # 1-way sparse tensor: must be answered like every other representation (finding C14-F3)
+        return (f"{_e_gram(a, o, 'sparse')} && {_e_facts(a, o)} && {_e_imag0(o)} && "
+                f"cols_ok eps8 {gqmat(o['V'])} {a['shape'][a['n']]} {a['r']} {gbool(a['flip'])}")
+    if c.op in ("big", "sp_big"):
+        # large modes: the recorded solver input against the exact Gram matrix of the (dense) denotation, this representation denotes the
+        # same tensor, the solver call, and the trace certificate; the code-path models are evaluated on the small streams (their
+        # cost grows with the fourth power of the mode size)
+        rp = a["repr"]
+        if o["vshape"] != [a["shape"][a["n"]], a["r"]] or "Y" not in o or not _all_int(o["Y"]):
+            return "false"
+        gd = _grepr(a, "dense")
+        base = (f"gram_recorded_ok {gd} {a['n']} {gzmat(o['Y'])} && rsame {gd} {_grepr(a, rp)} && "
+                f"nvecs_trace_ok eps8 (zq (rgram {gd} {a['n']})) {gqmat(o['V'])} {a['r']} {gbool(a['flip'])} {gbool(c.op == 'big')}")
+        if c.op == "sp_big":     # dtype / order of the sparse path: finding A-38 (facets sp_real, sp_eig of the small stream)
+            return f"{base} && {_e_facts(a, o)} && {_e_imag0(o)} && {_e_spcode(a, o)}"
+        return f"{gbool(o['is_real'])} && {base} && {_e_facts(a, o, True)} && {_e_post(a, o)}"
     if c.op == "nvecs":
         rp = a["repr"]
-        return f"{gbool(o['is_real'])} && {_e_gram(a, o, rp)} && {_e_eig(a, o, rp)} && {_e_post(a, o)}"
+        return f"{gbool(o['is_real'])} && {_e_gram(a, o, rp)} && {_e_eig(a, o, rp)} && {_e_post(a, o)} && {_e_facts(a, o, True)}"
     if c.op in ("seq", "sp_seq"):
         rp = a["repr"]
         parts = []
@@ -519,26 +728,36 @@ def coq_check(c, o):
         for n, r, st, bo in zip(a["modes"], a["rs"], o["steps"], btw):
             an = dict(a, n=n, r=r)
             if c.op == "sp_seq":        # eigenvectors of the sparse path: known finding A-38; the Gram matrix is checked at every call
-                parts.append(_e_gram(an, st, rp))
+                parts.append(_e_gram(an, st, rp) + " && " + _e_facts(an, st))
             else:
-                parts.append(f"{gbool(st['is_real'])} && {_e_gram(an, st, rp, inexact)} && {_e_eig(an, st, rp)} && {_e_post(an, st)}")
+                parts.append(f"{gbool(st['is_real'])} && {_e_gram(an, st, rp, inexact)} && {_e_eig(an, st, rp)} && {_e_post(an, st)} && "
+                             f"{_e_facts(an, st, True)}")
             inexact = inexact or bo in cu.INEXACT_OPS
         return " && ".join(f"({p_})" for p_ in parts)
     if c.op == "sp_gram":
-        return _e_gram(a, o, "sparse")
+        return _e_gram(a, o, "sparse") + " && " + _e_facts(a, o)
     if c.op == "sp_real":
         return gbool(o["is_real"])
     if c.op == "sp_eig":
-        return _e_eig(a, o, "sparse")
+        return _e_eig(a, o, "sparse") + " && " + _e_imag0(o)
     if c.op == "sp_post":
         return _e_post(a, o)
+    if c.op == "sp_code":
+        return _e_spcode(a, o)
+    if c.op == "sp_cols":      # orthonormal columns, sign rule, no imaginary parts
+        return f"cols_ok eps8 {gqmat(o['V'])} {a['shape'][a['n']]} {a['r']} {gbool(a['flip'])} && {_e_imag0(o)}"
+    if c.op == "sp_set":       # eigenvectors belonging to the r largest eigenvalues, in any order
+        ct = o["cert"]
+        return (f"eigset_ok eps8 (zq (rgram {_grepr(a, 'sparse')} {a['n']})) {gqmat(ct['W'])} {gqlist(ct['mu'])} {gqmat(o['V'])} "
+                f"{a['r']} && {_e_imag0(o)}")
     if o["cert"]["gap"] < 1e-3:
         return None
     if c.op == "agree":
         same = f"rsame {_grepr(a, 'dense')} {_grepr(a, 'ktensor')} && rsame {_grepr(a, 'dense')} {_grepr(a, 'ttensor')}"
         return same + " && all_same_subspace eps6 [" + "; ".join(gqmat(o[rp]["V"]) for rp in AGREE_REPRS) + "]"
     if c.op == "sp_agree":
-        return (f"rsame {_grepr(a, 'dense')} {_grepr(a, 'sparse')} && {gbool(o['sparse']['is_real'])} && "
+        # (the dtype of the sparse result is facet sp_real)
+        return (f"rsame {_grepr(a, 'dense')} {_grepr(a, 'sparse')} && {_e_imag0(o['sparse'])} && "
                 f"same_subspace eps6 {gqmat(o['dense']['V'])} {gqmat(o['sparse']['V'])}")
     raise ValueError(c.op)
 
@@ -586,10 +805,53 @@ def _oracle_one(a, o, what):
     return None
 
 
+def _oracle_big(a, o, what, inorder):
+    """large modes, pure Python floats: orthonormal eigenvectors of the brute-force Gram matrix whose Rayleigh quotients are
+    non-increasing and leave a remainder trace(G) - sum(lam) that is no larger than the smallest of them (G is positive semi-definite:
+    no uncaptured eigenvalue can then exceed a captured one)"""
+    n, r = a["shape"][a["n"]], a["r"]
+    if o["vshape"] != [n, r]:
+        return f"{what}: result has shape {o['vshape']}, expected {[n, r]}"
+    if inorder and not o["is_real"]:
+        return f"{what}: result is complex-typed"
+    if o["imag"] != 0:
+        return f"{what}: result has imaginary parts (max {o['imag']})"
+    V = [[float(x) for x in row] for row in o["V"]]
+    G = _py_gram(a)
+    tr = sum(G[i][i] for i in range(n))
+    sc = max(1.0, tr)
+    lam = []
+    for j in range(r):
+        for k in range(r):
+            g = sum(V[i][j] * V[i][k] for i in range(n))
+            if abs(g - (1.0 if j == k else 0.0)) > 1e-7:
+                return f"{what}: columns {j},{k} have inner product {g}"
+        Gv = [sum(G[i][k] * V[k][j] for k in range(n)) for i in range(n)]
+        lj = sum(V[i][j] * Gv[i] for i in range(n))
+        if max(abs(Gv[i] - lj * V[i][j]) for i in range(n)) > 1e-7 * sc:
+            return f"{what}: column {j} is not an eigenvector of the mode-{a['n']} Gram matrix"
+        lam.append(lj)
+        if a["flip"]:
+            m = max(abs(V[i][j]) for i in range(n))
+            if m > 1e-7 and not any(V[i][j] > 0 and V[i][j] >= m - 1e-7 for i in range(n)):
+                return f"{what}: column {j}: entry of largest magnitude is negative"
+    ls = lam if inorder else sorted(lam, reverse=True)
+    if any(ls[j + 1] > ls[j] + 1e-7 * sc for j in range(r - 1)):
+        return f"{what}: eigenvalues {lam} are not in decreasing order"
+    if tr - sum(lam) > ls[-1] + 1e-7 * sc:
+        return (f"{what}: the columns belong to eigenvalues {lam}, but the rest of the spectrum carries {tr - sum(lam)} > {ls[-1]}: "
+                f"a larger eigenvalue was left out (the generator builds spectra whose tail beyond r is smaller than the r-th value)")
+    return None
+
+
 def oracle(c, o):
     a = c.args
+    if c.op == "sp_refused":
+        return None
     if "exc" in o:
         return f"admissible request raised {o['exc']}: {o.get('msg')}"
+    if c.op in ("big", "sp_big"):
+        return _oracle_big(a, o, a["repr"], c.op == "big")
     if c.op == "sp_seq":
         return None
     if c.op == "seq":
@@ -617,15 +879,61 @@ def oracle(c, o):
 
 
 # ---------------------------------------------------------------- known findings
-def _is_sparse_case(c):
-    return c.op in ("sp_real", "sp_eig", "sp_post", "sp_agree")
+# A-38 (sptensor.nvecs uses the UNSYMMETRIC solvers eigs / eig and mis-sorts their output) — exactly what it breaks, per facet:
+#   iterative path (r < I_n - 1):  `_, v = eigs(y, r)` is returned as it comes: complex128 dtype ALWAYS (facet sp_real); the r dominant
+#       eigenpairs but in ARPACK's order, so with r >= 2 the columns may be out of order (sp_eig, sp_post); when two of the r leading
+#       eigenvalues coincide the unsymmetric solver's vectors need not be orthogonal / real (sp_cols, sp_agree, sp_eig, sp_post);
+#       with a simple spectrum the SET of eigenpairs is right (sp_set is attributed on this path only for coinciding eigenvalues, where
+#       the unsymmetric solver returns a complex-conjugate pair: observed on a 4x4 tensor with eigenvalues 648, 0, 0, 0 and r = 2)
+#   dense path (r >= I_n - 1):  `w, v = eig(y.toarray()); v = v[(-abs(w)).argsort()]` permutes ROWS: wrong unless that permutation is
+#       the identity — decided here by replaying LAPACK's eig on the exact Gram matrix of the request (deterministic) — or, when an
+#       eigenvalue of the whole spectrum is repeated, geev's vectors inside the eigenspace need not be orthogonal (sp_cols too);
+#       the dtype is real on this path unless an eigenvalue is repeated (eig then may return a complex-conjugate pair: observed on a
+#       2x2x3x2 tensor with two eigenvalues ~6.8e-14); sp_real is attributed on this path for repeated eigenvalues only
+#   sp_code (the returned matrix is the code's own post-processing of the recorded solver output, Model/C14SpPost.v) is attributed only
+#       where the unsymmetric solver may return complex-valued vectors (coinciding eigenvalues): the model works on real parts
+# Everything else — the Gram matrix handed to the solver, the code-path model, shape, solver choice, and each facet outside its class
+# above — is compared unattributed.
+def _spectrum(a):
+    import numpy as np
+    G = np.array(_py_gram(a), dtype=float)
+    mu = sorted((float(x) for x in np.linalg.eigvalsh(G)), reverse=True)
+    return G, mu
 
 
-def _is_sparse_singleton(c):
-    return c.op.startswith("sp_") and "n" in c.args and c.args["shape"][c.args["n"]] == 1
+def _degenerate(mu, k):
+    sc = max(1.0, mu[0]) if mu else 1.0
+    return any(abs(mu[i] - mu[i + 1]) <= 1e-7 * sc for i in range(min(k, len(mu) - 1)))
 
 
-TRIGGERS = {"sparse_nvecs": _is_sparse_case, "sparse_singleton_mode": _is_sparse_singleton}
+def _a38(c):
+    if c.op not in ("sp_real", "sp_eig", "sp_post", "sp_cols", "sp_set", "sp_agree", "sp_code"):
+        return False
+    a = c.args
+    I, r = a["shape"][a["n"]], a["r"]
+    iterative = r < I - 1
+    if c.op == "sp_real" and iterative:
+        return True
+    G, mu = _spectrum(a)
+    if iterative:
+        dtop = _degenerate(mu, r)        # pairs (mu_i, mu_i+1), i < r: includes the r-th against the (r+1)-th
+        if c.op in ("sp_eig", "sp_post"):
+            return r >= 2 or dtop
+        return dtop                      # sp_cols, sp_agree, sp_code, sp_set: only through complex / non-orthogonal vectors
+    dall = _degenerate(mu, I)
+    if c.op in ("sp_cols", "sp_code", "sp_real") or dall:
+        return dall
+    import numpy as np
+    import scipy.linalg
+    w, _ = scipy.linalg.eig(np.ldexp(G, 2 * cu.total_exp(a)))
+    return [int(k) for k in (-np.abs(w)).argsort()] != list(range(I))
+
+
+def _is_sparse_oneway(c):
+    return c.op == "sp_oneway"
+
+
+TRIGGERS = {"sparse_nvecs": _a38, "sparse_oneway": _is_sparse_oneway}
 
 
 def _wit_a38():
@@ -646,15 +954,17 @@ def _wit_a38():
     return "; ".join(msgs) or None
 
 
-def _wit_singleton():
+def _wit_oneway():
     import numpy as np
     import pyttb as ttb
-    S = ttb.sptensor(np.array([[0, 1, 2], [0, 3, 0]]), np.array([[2.0], [1.0]]), (1, 4, 3))
+    S = ttb.sptensor(np.array([[0], [2], [3]]), np.array([[2.0], [1.0], [-3.0]]), (5,))
     try:
-        v = np.asarray(S.nvecs(0, 1))
+        v = np.real(np.asarray(S.nvecs(0, 1)))
     except Exception as ex:
-        return f"sptensor.nvecs(0,1) on a 1x4x3 tensor raises {type(ex).__name__}: {ex}"
-    return None if v.shape == (1, 1) and abs(abs(v[0, 0]) - 1) < 1e-12 else f"sptensor.nvecs(0,1) on a 1x4x3 tensor returns {v.tolist()}"
+        return f"sptensor.nvecs(0,1) on a 1-way tensor of size 5 raises {type(ex).__name__}: {str(ex)[:80]}"
+    d = np.array([2.0, 0, 1, -3, 0]) / np.sqrt(14.0)
+    return None if v.shape == (5, 1) and min(np.abs(v[:, 0] - d).max(), np.abs(v[:, 0] + d).max()) < 1e-9 else \
+        f"sptensor.nvecs(0,1) on a 1-way tensor returns {v.tolist()}"
 
 
-WITNESSES = {"A-38": _wit_a38, "C14-F2": _wit_singleton}
+WITNESSES = {"A-38": _wit_a38, "C14-F3": _wit_oneway}
